@@ -69,6 +69,25 @@ Proof.
 Qed.
 Print Assumptions C17_breaker_every_history.
 
+(* ... and the same of the automaton REGENERATED from retry.go on this run (int64 arithmetic written out), for
+   every history whose call times are clock readings in [0, 2^62) ns and whose length is below 2^63 - 1 *)
+Theorem C17_breaker_every_history_of_the_code :
+  forall calls thr cd,
+    1 <= thr -> Z.of_nat (List.length calls) < two63 - 1 ->
+    Forall (fun c => 0 <= fst c < two62) calls ->
+    let rs := fst (cb_run_gen (mkCB thr cd CBClosed 0 0) calls) in
+    let cb' := snd (cb_run_gen (mkCB thr cd CBClosed 0 0) calls) in
+    cb_fail cb' = trailing_fails rs 0 /\
+    (cb_st cb' = CBOpen <-> thr <= trailing_fails rs 0) /\
+    List.length rs = List.length calls.
+Proof.
+  intros calls thr cd Hthr Hlen Hall.
+  rewrite (cb_run_gen_spec calls (mkCB thr cd CBClosed 0 0)); cbn [cb_fail cb_last];
+    try assumption; try (unfold two62; lia).
+  exact (C17_breaker_every_history calls thr cd Hthr).
+Qed.
+Print Assumptions C17_breaker_every_history_of_the_code.
+
 (* one call of any history: it is refused exactly when the breaker is open within its cooldown *)
 Theorem C17_breaker_rejects_exactly_in_cooldown :
   forall cb t ff, 1 <= cb_threshold cb -> cb_open_iff cb ->
